@@ -703,11 +703,11 @@ def weak_projection(ps):
     return sorted((p[0], p[1]) for p in ps)
 
 
-def evaluate(ctx, cases, broken, label, corr=True, slice_size=1200):
+def evaluate(ctx, cases, broken, label, corr=True, slice_size=1200, echo=True):
     """evaluate_slice on slices of the cases (bounded memory: the typed echo of inputs and chunk files is dropped after use)"""
     obs_all, projs_all, mism_all = [], [], []
     for k in range(0, len(cases), slice_size):
-        obs, projs, mism = evaluate_slice(ctx, cases[k:k + slice_size], broken, label, corr, base=k)
+        obs, projs, mism = evaluate_slice(ctx, cases[k:k + slice_size], broken, label, corr, base=k, echo=echo)
         for o in obs:
             o.pop("tin", None)
             o.pop("reread", None)
@@ -719,11 +719,11 @@ def evaluate(ctx, cases, broken, label, corr=True, slice_size=1200):
     return obs_all, projs_all, mism_all
 
 
-def evaluate_slice(ctx, cases, broken, label, corr=True, base=0):
+def evaluate_slice(ctx, cases, broken, label, corr=True, base=0, echo=True):
     import time
     t0 = time.time()
     sec = ctx.cov.setdefault("seconds", {})
-    obs = ctx.vh_robust("c06", [to_vh(c) for c in cases], timeout=900, one_timeout=40)
+    obs = ctx.vh_robust("c06", [to_vh(c, echo=echo) for c in cases], timeout=900, one_timeout=40)
     sec[label + "_harness"] = round(sec.get(label + "_harness", 0) + time.time() - t0, 1)
     for i, o in enumerate(obs):
         if o.get("kind") in ("timeout", "crash"):
@@ -807,6 +807,25 @@ def evaluate_slice(ctx, cases, broken, label, corr=True, base=0):
         else:
             mism = [idx[i] for i in bad]
     return obs, projs, mism
+
+
+# ----------------------------------------------------------------------------------------------- in-memory workers
+def race_cases(rng, n):
+    """Many records, few category values, 8 in-memory workers over many hash chunks: state shared by mistake between
+    the workers (classifier tables) shows as classes cut in two. Judged by the direct oracle only."""
+    cs = []
+    for i in range(n):
+        seqs = ["".join(rng.choice("acgt") for _ in range(12)) for _ in range(rng.choice([100, 300]))]
+        vals = ["A", "B", "C", "D", "E", "F"][:rng.choice([3, 6])]
+        recs = []
+        for j in range(rng.choice([2000, 4000])):
+            r = R("r%d" % j, rng.choice(seqs), rng.choice([0, 0, 2]), dict(sample=rng.choice(vals)))
+            if rng.random() < 0.5:
+                r["attrs"]["tag"] = rng.choice(["x", "y"])
+            recs.append(r)
+        cs.append(C(recs, cats=rng.choice([["sample"], ["sample", "tag"]]), stats=["sample"], disk=False, chunks=rng.choice([7, 100]),
+                    workers=8, batch=50, dbatch=rng.choice([0, 10])))
+    return cs
 
 
 # ----------------------------------------------------------------------------------------------- on-disk mode under processor contention
@@ -1016,6 +1035,9 @@ def run(ctx, broken):
     nms, nperm, big = (110, 5, 3) if ctx.quick else (2500, 6, 60)
     cases, groups = gen_cases(ctx, nms, nperm, big)
     obs, projs, mism = evaluate(ctx, cases, broken, "main")
+    rcs = race_cases(ctx.rng, 12 if ctx.quick else 60)
+    evaluate(ctx, rcs, broken, "workers", corr=False, echo=False, slice_size=20)
+    ctx.cov["in_memory_worker_cases"] = len(rcs)
     timing["main"] = round(time.time() - t0, 1)
     # order / chunk / mode / worker independence inside each group (implied by the oracle; reported separately for clarity)
     ngroups_equal = 0
@@ -1047,7 +1069,7 @@ def run(ctx, broken):
     ctx.cov["disk_stress"] = dict(runs=nstress, failures=nbad, what="large on-disk cases run in many concurrent harness processes (writer goroutines preempted)",
                                   delayed_completion_runs=ndet, delayed_completion_failures=nbad_det,
                                   delayed_completion="the same kind of cases, one process, every chunk file flushed/closed 5 or 20 ms late (verif hooks)")
-    ctx.cov["evaluations"] = len(cases) + ncli + ndw + nstress + ndet
+    ctx.cov["evaluations"] = len(cases) + len(rcs) + ncli + ndw + nstress + ndet
     ctx.cov["distinct_nontrivial"] = len({json.dumps(to_vh(c), sort_keys=True) for c in cases if nontrivial(c)})
     ctx.cov["rule"] = ("multisets of 0..21 (big: 40..150) records over 1..12 (big: 8..40) distinct sequences, counts absent/1/2..1000, 4 attributes "
                        "(string/int/bool, present with p in {0,.5,.8,1}), already merged maps in 3 Go map types; each multiset in %d arrival orders "
